@@ -37,10 +37,105 @@ PROPS = {
                       "correspondence (bit-exact on Float). Trusted: Lean kernel, Mathlib, harness.",
         "lean_modules": ["Astral.Props.C15"],
         "theorems": [
-            "Astral.C15.jd_gregorian",
+            "Astral.C15.jd_gregorian", "Astral.C15.meeusInt_eq_ord", "Astral.C15.jd_time",
+            "Astral.C15.jd_julian_offset", "Astral.C15.century_inverse",
+            "Astral.C15.century_inverse'", "Astral.C15.mjd_eq",
         ],
         "groups": [G("corr_julian", "julian", 6000, 300000)],
         "unproved": [],
         "assumes": [],
+    },
+    "C03": {
+        "level_text": "Kernel-checked theorems that every time returned by dawn, sunrise, sunset, dusk, "
+                      "time_at_elevation, daylight, night, twilight, golden_hour, blue_hour, the sun "
+                      "bundle, moonrise and moonset lies on the requested date — for every zone "
+                      "function and with the ephemeris uninterpreted — about a model compared with "
+                      "the implementation on every run.",
+        "level_note": "Zones are arbitrary functions instant→offset; the astronomy is a parameter. "
+                      "Tie to /repo: sampled correspondence of all event functions across zones "
+                      "−12:00…+14:00 and IANA zones incl. DST days.",
+        "lean_modules": ["Astral.Props.C03"],
+        "theorems": [
+            "Astral.C03.rematch_on_date", "Astral.C03.dawn_on_date", "Astral.C03.dusk_on_date",
+            "Astral.C03.sunrise_on_date", "Astral.C03.sunset_on_date",
+            "Astral.C03.timeAtElevation_on_date", "Astral.C03.daylight_on_date",
+            "Astral.C03.night_dates", "Astral.C03.twilight_on_date",
+            "Astral.C03.goldenHour_on_date", "Astral.C03.blueHour_on_date",
+            "Astral.C03.sunBundle_on_date", "Astral.C03.moonWrapper_on_date",
+            "Astral.C03.moonrise_on_date", "Astral.C03.moonset_on_date",
+        ],
+        "groups": [G("corr_sun", "sun_events", 2500, 60000), G("corr_sun", "sun_periods", 1500, 40000),
+                   G("corr_moon", "moon_riseset", 1200, 30000)],
+        "unproved": [],
+        "assumes": ["astimezone near year 1/9999 (OverflowError) is outside the modelled range"],
+    },
+    "C07": {
+        "level_text": "Kernel-checked theorems that each derived period is exactly the pair of primitive "
+                      "events that defines it (iff, any numeric type), that night always starts before "
+                      "it ends (any zone whose calendar date never goes backwards), and that rahukaalam "
+                      "is the pinned traditional eighth of the span.",
+        "level_note": "night_ordered assumes DateMono (dates never go backwards in the zone; proved for "
+                      "fixed offsets, checked on the extracted IANA tables by the harness). Ordering of "
+                      "the other periods within one solar day is C06's theorem.",
+        "lean_modules": ["Astral.Props.C07"],
+        "theorems": [
+            "Astral.C07.daylight_eq", "Astral.C07.night_eq", "Astral.C07.twilight_rising_eq",
+            "Astral.C07.twilight_setting_eq", "Astral.C07.blueHour_eq", "Astral.C07.goldenHour_eq",
+            "Astral.C07.sunBundle_eq", "Astral.C07.dateMono_fixed", "Astral.C07.night_ordered",
+            "Astral.C07.octantIndex_traditional", "Astral.C07.rahukaalam_spec",
+            "Astral.C07.octant_close",
+        ],
+        "groups": [G("corr_sun", "sun_periods", 3000, 80000), G("corr_sun", "sun_events", 1500, 30000)],
+        "unproved": ["period start < end within one solar day: see C06 (shared-declination theorem)"],
+        "assumes": ["DateMono for the output zone (night_ordered)"],
+    },
+    "C16": {
+        "level_text": "Kernel-checked theorems: the degree pattern recogniser returns exactly the fields "
+                      "of well-formed DMS text, the value is ±(deg+min/60+sec/3600), numbers parse to "
+                      "themselves, clamping keeps latitude/longitude in range after every assignment "
+                      "history (induction over the history), and unrecognised text is rejected.",
+        "level_note": "The recogniser is a hand-written equivalent of the regular expression on the "
+                      "alphabet ASCII ∪ {°,′,″}; `float(str)` is modelled on a stated numeral grammar. "
+                      "Both are tied to `re`/`float` by correspondence (exhaustive short strings in the "
+                      "thorough tier). NaN/inf strings are outside the grammar (property quantifies "
+                      "over finite floats).",
+        "lean_modules": ["Astral.Props.C16"],
+        "theorems": [
+            "Astral.C16.clamp_range", "Astral.C16.dmsToFloat_range", "Astral.C16.obs_mk_inv",
+            "Astral.C16.obs_set_inv", "Astral.C16.observer_inv", "Astral.C16.coords_set_inv",
+            "Astral.C16.coords_inv", "Astral.C16.dms_number_identity", "Astral.C16.dms_number_clamped",
+            "Astral.C16.dmsMatch_value", "Astral.C16.recognise_deg_min_sec",
+            "Astral.C16.recognise_deg_min", "Astral.C16.recognise_deg", "Astral.C16.reject",
+            "Astral.C16.accept_cases", "Astral.C16.recognise_none_of_no_digit",
+        ],
+        "groups": [G("corr_geo", "dms", 4000, 60000,
+                     exhaustive_thorough=["dms_exhaustive", "dms_short_strings"],
+                     exhaustive_quick=["dms_short_strings"]),
+                   G("corr_geo", "setters", 3000, 60000)],
+        "unproved": ["degrees + seconds without minutes (the fourth field shape) is covered by the "
+                     "recogniser correspondence, not by its own theorem"],
+        "assumes": ["recogniser ≡ re.match and parseNumeral ≡ float() on the modelled alphabet"],
+    },
+    "C17": {
+        "level_text": "Kernel-checked refinement theorems over insertion-ordered association lists: "
+                      "well-formedness is preserved by every addition (induction over the history); "
+                      "listing = previous records + added ones (permutation); lookup is sound and "
+                      "complete w.r.t. the stored records up to sanitising; bare names return the head "
+                      "of the name's list; group names return the group; unknown names raise KeyError.",
+        "level_note": "Strings are code-point lists with ASCII lower-casing. Independence of databases "
+                      "is carried by the tie: the correspondence drives several handles (including "
+                      "fresh database() calls) through one interleaved history while the model treats "
+                      "them as separate values.",
+        "lean_modules": ["Astral.Props.C17"],
+        "theorems": [
+            "Astral.C17.all_after_addRec", "Astral.C17.all_after_addMany", "Astral.C17.wf_addRec",
+            "Astral.C17.wf_addMany", "Astral.C17.lookupInGroup_sound", "Astral.C17.lookupInGroup_bare",
+            "Astral.C17.lookupInGroup_complete", "Astral.C17.lookupInGroup_error",
+            "Astral.C17.lookup_group", "Astral.C17.lookup_sound", "Astral.C17.lookup_complete",
+            "Astral.C17.lookup_unknown", "Astral.C17.sanitize_idem", "Astral.C17.parseQuery_spelling",
+        ],
+        "groups": [G("corr_geo", "geocoder", 2500, 60000)],
+        "unproved": ["parsing of text lines into records (strip/split) is tied by correspondence only"],
+        "assumes": ["ASCII alphabet for case folding"],
     },
 }
